@@ -263,6 +263,7 @@ def run_replace(ctx, structure, search, replace, spec, script, fraction=None, re
             r = c["result"]
             run.found = ([tuple(int(i) for i in t) for t in r[0]], np.asarray(r[1], float), r[2]) if isinstance(r, tuple) else None
     run.sampled = ctx.rng.last_sample if kw["replace_fraction"] < 1.0 else None
+    run.sample_observed = kw["replace_fraction"] >= 1.0 or ctx.rng.last_sample is not None
     if run.found is None and (run.exc is None or type(run.exc).__name__ == "AtomsShouldNotBeDeletedTwice"):
         # the inner search was not observable at the tap (e.g. the code was restructured): reconstruct what it found by
         # running the public search under the same script (per-site decision streams make the tie-breaks identical)
@@ -279,6 +280,34 @@ def run_replace(ctx, structure, search, replace, spec, script, fraction=None, re
         except Exception:
             run.found = None
         run.sampled = sample_keep
+    if run.found is not None and len(run.found[0]) and getattr(structure, "cell", None) is not None and len(np.asarray(structure.cell)):
+        # "the matched atoms" are the atoms AT the matched places: if the index tuples handed to the replacement do not name
+        # the atoms whose positions (and rotations) it is handed along with them, the places decide what the oracles expect
+        try:
+            cell = np.array(structure.cell, float).reshape(3, 3)
+            inv = np.linalg.inv(cell)
+            sp = np.array(structure.positions, float).reshape(-1, 3)
+            fixed, changed = [], False
+            for tup, X in zip(run.found[0], np.asarray(run.found[1], float)):
+                new = []
+                for a, i in enumerate(tup):
+                    d = (sp - X[a]) @ inv
+                    r = np.abs(d - np.round(d)).max(axis=1)
+                    if r[i] < 1e-6:
+                        new.append(int(i))
+                        continue
+                    j = int(np.argmin(r))
+                    if r[j] < 1e-6 and (r < 1e-6).sum() == 1:
+                        new.append(j)
+                        changed = True
+                    else:
+                        new.append(int(i))
+                fixed.append(tuple(new))
+            if changed:
+                ctx.count("match_indices_inconsistent_with_match_positions")
+                run.found = (fixed, run.found[1], run.found[2])
+        except Exception:
+            pass
     if run.found is not None:
         M = len(run.found[0])
         run.selected = list(range(M)) if run.sampled is None else [int(i) for i in run.sampled]
